@@ -41,7 +41,7 @@ Tick == n < MaxSteps /\ n' = n + 1
 
 AddTransceiver(p, k, d, withTrack) ==
   /\ "addTransceiver" \in Ops /\ Tick /\ Len(trs[p]) < MaxTrs
-  /\ trs' = [trs EXCEPT ![p] = Append(@, [kind |-> k, dir |-> d, track |-> withTrack, mid |-> NoMid])]
+  /\ trs' = [trs EXCEPT ![p] = Append(@, [kind |-> k, dir |-> d, track |-> withTrack, mid |-> NoMid, neg |-> FALSE])]
   /\ UNCHANGED <<dc, secs, nextMid, hist>>
   /\ last' = [op |-> IF withTrack THEN "addTransceiverTrack" ELSE "addTransceiver", who |-> p, kind |-> k, dir |-> d]
 
@@ -54,7 +54,7 @@ AddTrack(p, k) ==
           trs' = [trs EXCEPT ![p][i].track = TRUE,
                              ![p][i].dir = IF @ = "recvonly" THEN "sendrecv" ELSE "sendonly"]
      ELSE /\ Len(trs[p]) < MaxTrs
-          /\ trs' = [trs EXCEPT ![p] = Append(@, [kind |-> k, dir |-> "sendrecv", track |-> TRUE, mid |-> NoMid])]
+          /\ trs' = [trs EXCEPT ![p] = Append(@, [kind |-> k, dir |-> "sendrecv", track |-> TRUE, mid |-> NoMid, neg |-> FALSE])]
   /\ UNCHANGED <<dc, secs, nextMid, hist>>
   /\ last' = [op |-> "addTrack", who |-> p, kind |-> k]
 
@@ -78,6 +78,17 @@ SetMid(p, i) ==
   /\ UNCHANGED <<trs, dc, secs, nextMid, hist>>
   /\ last' = [op |-> "setMid", who |-> p, n |-> i - 1]
 
+\* the application gives a transceiver that was never negotiated a numeric mid of its own choice that
+\* nothing else carries (the driver picks the smallest such number on the real endpoint); it counts as
+\* taken from then on.  While it is pending, the other side does not start an exchange (its own
+\* numbering could pick the same mid independently, which would be the application's doing).
+PresetMid(p, i) ==
+  /\ "presetMid" \in Ops /\ Tick /\ i \in 1..Len(trs[p]) /\ trs[p][i].mid = NoMid /\ ~trs[p][i].neg
+  /\ trs' = [trs EXCEPT ![p][i].mid = nextMid]
+  /\ nextMid' = nextMid + 1
+  /\ UNCHANGED <<dc, secs, hist>>
+  /\ last' = [op |-> "presetMid", who |-> p, n |-> i - 1]
+
 CreateDC(p) ==
   /\ "createDC" \in Ops /\ Tick /\ ~dc[p]
   /\ dc' = [dc EXCEPT ![p] = TRUE]
@@ -91,16 +102,18 @@ OfferOnly(p) ==
 
 \* ---- one complete exchange, offerer p ------------------------------------------------------
 \* mids handed to p's unassociated transceivers, in transceiver order
-Unassoc(t) == {i \in 1..Len(t) : t[i].mid = NoMid}
 RankIn(S, i) == Cardinality({j \in S : j < i})
+Unassoc(t) == {i \in 1..Len(t) : ~t[i].neg}                      \* never offered / answered so far
+Midless(t) == {i \in Unassoc(t) : t[i].mid = NoMid}               \* ... and without a mid chosen by the application
+FreshMid(t, i) == IF t[i].mid # NoMid THEN t[i].mid ELSE nextMid + RankIn(Midless(t), i)
 OfferedTrs(p) == [i \in 1..Len(trs[p]) |->
-                    IF trs[p][i].mid = NoMid
-                    THEN [trs[p][i] EXCEPT !.mid = nextMid + RankIn(Unassoc(trs[p]), i)]
+                    IF ~trs[p][i].neg
+                    THEN [trs[p][i] EXCEPT !.mid = FreshMid(trs[p], i), !.neg = TRUE]
                     ELSE trs[p][i]]
 NewMediaSecs(p) == LET u == Unassoc(trs[p]) IN
                    [r \in 1..Cardinality(u) |->
                       LET i == CHOOSE x \in u : RankIn(u, x) = r - 1 IN
-                      [mid |-> nextMid + r - 1, kind |-> trs[p][i].kind, odir |-> trs[p][i].dir]]
+                      [mid |-> FreshMid(trs[p], i), kind |-> trs[p][i].kind, odir |-> trs[p][i].dir]]
 HasApp(s) == \E i \in 1..Len(s) : s[i].kind = "application"
 NeedApp(p) == (dc[p] \/ dc[Other(p)]) /\ ~HasApp(secs)
 
@@ -109,35 +122,50 @@ RECURSIVE Associate(_, _)
 Associate(t, news) ==
   IF news = <<>> THEN t
   ELSE LET s == Head(news)
-           cand == {i \in 1..Len(t) : t[i].mid = NoMid /\ t[i].kind = s.kind}
+           cand == {i \in 1..Len(t) : ~t[i].neg /\ t[i].mid = NoMid /\ t[i].kind = s.kind}
        IN IF cand # {}
           THEN LET i == CHOOSE x \in cand : \A y \in cand : x <= y IN
-               Associate([t EXCEPT ![i].mid = s.mid], Tail(news))
+               Associate([t EXCEPT ![i].mid = s.mid, ![i].neg = TRUE], Tail(news))
           ELSE Associate(Append(t, [kind |-> s.kind,
                                     dir |-> IF s.odir = "recvonly" THEN "sendonly"
                                             ELSE IF s.odir = "inactive" THEN "inactive" ELSE "recvonly",
-                                    track |-> FALSE, mid |-> s.mid]), Tail(news))
+                                    track |-> FALSE, mid |-> s.mid, neg |-> TRUE]), Tail(news))
 
 Negotiate(p) ==
   /\ "negotiate" \in Ops /\ Tick
   /\ LET q    == Other(p)
          news == NewMediaSecs(p)
          k    == Len(news)
-         app  == IF NeedApp(p) THEN <<[mid |-> nextMid + k, kind |-> "application"]>> ELSE <<>>
+         f    == Cardinality(Midless(trs[p]))          \* fresh mids handed out by this offer
+         app  == IF NeedApp(p) THEN <<[mid |-> nextMid + f, kind |-> "application"]>> ELSE <<>>
          ns   == secs \o [r \in 1..k |-> [mid |-> news[r].mid, kind |-> news[r].kind]] \o app
      IN /\ Len(Associate(trs[q], news)) <= MaxTrs + 2
         /\ trs' = [trs EXCEPT ![p] = OfferedTrs(p), ![q] = Associate(trs[q], news)]
         /\ secs' = ns
-        /\ nextMid' = nextMid + k + Len(app)
+        /\ nextMid' = nextMid + f + Len(app)
+        /\ \A i \in 1..Len(trs[q]) : trs[q][i].neg \/ trs[q][i].mid = NoMid
         /\ hist' = Append(hist, ns)
   /\ UNCHANGED dc
   /\ last' = [op |-> "negotiate", who |-> p]
 
-Step == \/ \E p \in Peers, k \in Kinds, d \in Dirs, w \in BOOLEAN : AddTransceiver(p, k, d, w)
-        \/ \E p \in Peers, k \in Kinds : AddTrack(p, k)
-        \/ \E p \in Peers, i \in 1..MaxTrs + 2 : RemoveTrack(p, i) \/ Stop(p, i) \/ SetMid(p, i)
-        \/ \E p \in Peers : CreateDC(p) \/ OfferOnly(p) \/ Negotiate(p)
+StepOf(c) ==
+  CASE c = "addTransceiver" -> \E p \in Peers, k \in Kinds, d \in Dirs, w \in BOOLEAN : AddTransceiver(p, k, d, w)
+    [] c = "addTrack"       -> \E p \in Peers, k \in Kinds : AddTrack(p, k)
+    [] c = "removeTrack"    -> \E p \in Peers, i \in 1..MaxTrs + 2 : RemoveTrack(p, i)
+    [] c = "stop"           -> \E p \in Peers, i \in 1..MaxTrs + 2 : Stop(p, i)
+    [] c = "setMid"         -> \E p \in Peers, i \in 1..MaxTrs + 2 : SetMid(p, i)
+    [] c = "presetMid"      -> \E p \in Peers, i \in 1..MaxTrs + 2 : PresetMid(p, i)
+    [] c = "createDC"       -> \E p \in Peers : CreateDC(p)
+    [] c = "offerOnly"      -> \E p \in Peers : OfferOnly(p)
+    [] c = "negotiate"      -> \E p \in Peers : Negotiate(p)
+Step == \E c \in Ops : StepOf(c)
 Next == Step /\ path' = IF RecordPath THEN Append(path, last') ELSE path
+\* for -simulate: TLC picks uniformly among successor *states*, and most successors are additions of
+\* transceivers; choosing the kind of call first (among those enabled) gives every call the same weight
+SimNext == LET en == {c \in Ops : ENABLED StepOf(c)} IN
+           /\ en # {}
+           /\ StepOf(RandomElement(en))
+           /\ path' = IF RecordPath THEN Append(path, last') ELSE path
 
 Spec == Init /\ [][Next]_vars
 
@@ -151,7 +179,7 @@ ModelHistoryStable ==                                                           
       /\ \A i \in 1..Len(hist[a]) : hist[b][i] = hist[a][i]
 ModelNoMidReuse == \A i \in 1..Len(secs) : secs[i].mid < nextMid
 ModelOneSectionPerAssociatedTransceiver ==                                             \* C12 / C09
-  \A p \in Peers : \A i \in 1..Len(trs[p]) : trs[p][i].mid # NoMid =>
+  \A p \in Peers : \A i \in 1..Len(trs[p]) : trs[p][i].neg =>
       Cardinality({j \in 1..Len(secs) : secs[j].mid = trs[p][i].mid /\ secs[j].kind = trs[p][i].kind}) = 1
 ModelDistinctTransceiverMids ==
   \A p \in Peers : \A i, j \in 1..Len(trs[p]) : (i # j /\ trs[p][i].mid # NoMid) => trs[p][i].mid # trs[p][j].mid
